@@ -598,6 +598,7 @@ def c23_replay(w):
 def main(prop, tier):
     camp = Campaign(prop, tier)
     n = N_QUICK[prop] if tier == "quick" else N_THOROUGH[prop]
+    n = int(__import__("os").environ.get("VERIF_CASES", n))     # experiments only
     base = camp.seed * 1000003 + {"C18": 18000, "C20": 20000, "C23": 23000}[prop]
     if prop == "C18":
         kinds = ["inject", "inject", "mutate", "mutate", "mutate", "grammar"]
